@@ -378,12 +378,52 @@ def main_run(prop_id: str, tier: str, replay: Optional[str] = None) -> int:
         ex_shards = getattr(mod, "EXHAUSTIVE_SHARDS", {"quick": 8, "thorough": 16})[tier]
         jobs += [(prop_id, tier, seed, s, ex_shards, 0, "exhaustive") for s in range(ex_shards)]
 
+    # coverage-guided supplement (thorough tier of selected properties): atheris/libFuzzer drives the same strategy + oracle
+    fuzz_proc, fuzz_dir, fuzz_runs = None, None, getattr(mod, "ATHERIS_RUNS", 0) if tier == "thorough" else 0
+    if fuzz_runs and not os.environ.get("VF_NO_ATHERIS"):
+        import subprocess
+        import tempfile
+
+        fuzz_dir = tempfile.mkdtemp(prefix="vffuzz_")
+        env = dict(os.environ, PYTHONPATH=os.pathsep.join([VERIF, os.path.join(VERIF, ".deps")]), VF_REPO=REPO)
+        try:
+            fuzz_proc = subprocess.Popen([sys.executable, "-m", "vf.fuzz", prop_id, tier, str(fuzz_runs), str(seed), fuzz_dir], cwd=VERIF, env=env,
+                                         stdout=subprocess.DEVNULL, stderr=subprocess.DEVNULL)
+        except Exception:
+            fuzz_proc = None
+
     import multiprocessing as mp
 
     ctx = mp.get_context("spawn")
     nproc = min(len(jobs), int(os.environ.get("VF_PROCS", "16")))
     with ctx.Pool(nproc) as pool:
         results = pool.map(run_shard, jobs, chunksize=1)
+
+    fuzz_info = None
+    if fuzz_dir is not None:
+        import shutil
+
+        fuzz_info = {"engine": "atheris/libFuzzer via hypothesis fuzz_one_input", "runs_requested": fuzz_runs, "status": "unavailable"}
+        if fuzz_proc is not None:
+            try:
+                fuzz_proc.wait(timeout=max(300, fuzz_runs // 20))
+                fuzz_info["status"] = "completed" if fuzz_proc.returncode == 0 else f"exit {fuzz_proc.returncode}"
+            except Exception:
+                fuzz_proc.kill()
+                fuzz_info["status"] = "stopped at the time limit (inconclusive)"
+            sp, vp_ = os.path.join(fuzz_dir, "stats.json"), os.path.join(fuzz_dir, "violation.json")
+            if os.path.exists(sp):
+                with open(sp) as f:
+                    fs = json.load(f)
+                fuzz_info["evaluations"] = fs["evaluations"]
+                fuzz_info["corpus_files"] = len(os.listdir(os.path.join(fuzz_dir, "corpus"))) if os.path.isdir(os.path.join(fuzz_dir, "corpus")) else 0
+                results.append({"shard": "atheris", "mode": "atheris", "violations": [], "error": None, "stats": fs, "wall_s": 0})
+            elif fuzz_info["status"] != "completed":
+                fuzz_info["status"] = "unavailable (atheris could not be started)"
+            if os.path.exists(vp_):
+                with open(vp_) as f:
+                    results[-1]["violations"].append(json.load(f))
+        shutil.rmtree(fuzz_dir, ignore_errors=True)
 
     errors = [r for r in results if r["error"]]
     if errors:
@@ -451,6 +491,8 @@ def main_run(prop_id: str, tier: str, replay: Optional[str] = None) -> int:
     }
     if getattr(mod, "EXHAUSTIVE_NOTE", ""):
         cov["exhaustive_note"] = mod.EXHAUSTIVE_NOTE
+    if fuzz_info is not None:
+        cov["coverage_guided_supplement"] = fuzz_info
     ev = {
         "property_id": prop_id,
         "tier": tier,
